@@ -114,7 +114,9 @@ def persist_job(e, p):
     n = p['n']; hist = p['history']; final = p['final']; mode = p['mode']; canary = p.get('canary')
     tabs = A.family_tabs(n, p['fam'])
     def case(m):
-        return {'n': n, 'tabs': tables_from_model(m, [[zb(b) for b in t] for t in tabs]), 'history': hist, 'final': final, 'mode': mode}
+        c = {'n': n, 'tabs': tables_from_model(m, [[zb(b) for b in t] for t in tabs]), 'history': hist, 'final': final, 'mode': mode}
+        if p.get('features'): c['features'] = p['features']
+        return c
     def on_panic(e_, msg):
         m = sat_model(e_, True)
         if m is not None: report(e_, 'panic', what='round trip panics: %s' % msg[:200], case=case(m))
@@ -169,20 +171,22 @@ def judge(out):
     return probs
 
 def replay(ctx, v):
-    out = ctx.native().call(native_cmd(v['case']), timeout=30)
+    feats = v['case'].get('features')
+    nat = ctx.native(tuple(f for f in feats if f != 'HashSet')) if feats else ctx.native()
+    out = nat.call(native_cmd(v['case']), timeout=30)
     probs = judge(out)
     if probs: return 'reproduced', {'native_output': out, 'problems': probs}
     if v['kind'] == 'import-state':
-        out = ctx.native().call(native_cmd(dict(v['case'], probe=v.get('probe'))), timeout=30)
+        out = nat.call(native_cmd(dict(v['case'], probe=v.get('probe'))), timeout=30)
         if out.get('probe_wrong'): return 'reproduced', {'native_output': out, 'problems': ['after the round trip, %s answers wrongly: %s' % (v.get('probe'), out.get('probe_detail'))]}
         for fin in FINALS:
-            out = ctx.native().call(native_cmd(dict(v['case'], final=fin)), timeout=30)
+            out = nat.call(native_cmd(dict(v['case'], final=fin)), timeout=30)
             probs = judge(out)
             if probs: return 'reproduced', {'native_output': out, 'problems': probs, 'surfaced_by': fin}
     return 'not-reproduced', {'native_output': out}
 
 def key(v):
-    c = v['case']; return '%s:%s' % (v['kind'], json.dumps([c['mode'], c['n'], c['tabs'], c['history'], c['final']]))
+    c = v['case']; return '%s:%s' % (v['kind'], json.dumps([c['mode'], c['n'], c['tabs'], c['history'], c['final'], c.get('features')]))
 
 
 def validate(ctx, tier, seed):
